@@ -102,12 +102,19 @@ def check(tier, seed):
             for (_, r, _, _, _) in res:
                 h.cleanup(r)
     h.close()
+    # which calls are marked: generator's position classes vs the model of tailrec.c (nmdrv tail) vs the dumped code; results vs the
+    # reference evaluator; all-tail programs in constant stack
+    import tailpos
+    tp = tailpos.run(rep, tier, seed)
+    rep.cov["tail_positions"] = {k: v for k, v in tp.items() if k != "found"}
     rep.cov.update(trusted_base=["Lean 4.33 kernel", "axioms: propext, Classical.choice, Quot.sound", "h_vm.c peak-sp hook + comparator", "gcc/ASan"],
-                   evaluations=2 * len(rows), distinct_nontrivial=len(rows),
+                   evaluations=2 * len(rows) + tp["programs"], distinct_nontrivial=len(rows) + tp["functions"],
                    rule="each tail-recursive shape (?:, block, match arm, record match arm, if-let, no-parameter with local, allocating) is run at N and 10N iterations, N far above the 200-slot stack; peak sp (per-instruction hook) must be equal; the N run is replayed in lockstep on the Lean VM",
                    samples=rows[:4], rows=rows, statuses=stats)
-    rep.assumptions = ["tail-position analysis of tailrec.c is not modelled: its effect is observed as SLIDE;CALL in the dumped code and as constant peak sp",
-                       "result = equivalent loop is covered through the lockstep replay and C02's evaluator"]
+    rep.assumptions = ["front/tailrec.c is modelled by Model/TailRec.lean (markedAt over the table regenerated from the C text by gen/tailtab.py); the self test (symbol-table lookup) is mirrored by names: parameters and block items shadow, names bound by match / if-let guards do not",
+                       "the excused table entry: the function expression of a call receives the tail flag (marker_sound_c_partial); no typed program can exploit it",
+                       "whether a retagged call may replace the frame of a function WITH catch clauses is not part of the model: known finding tail-call-under-own-catch-clauses",
+                       "result = equivalent loop is covered through the lockstep replay, C02's evaluator on the position-class programs, and tail_position_value on the evaluator"]
     return rep.finish()
 
 def replay(path):
